@@ -16,7 +16,7 @@ GRAMMARS = {
     'named_value': ([('start', S(N('n', C('word')), OPT(N('m', C('word'))))), ('word', A(T('if'), T('a'), P('[b-z]+')))], ['if'], ['word'], "@@keyword :: if\n"),
 }
 WARM = ['', 'a', 'if', 'IF', 'fi', 'ifa', 'if a', 'a if', 'iff', 'i', 'ifx', 'ix', 'aif', 'If a', 'if!', 'ab', 'a b', 'fi a', 'ify', 'ii', 'if if']
-BUDGET = {0: 40, 1: 40, 2: 80, 3: 300, 4: 1200, 5: 3600}
+BUDGET = {0: 40, 1: 40, 2: 80, 3: 360, 4: 1200, 5: 3600}
 
 
 def alpha_pre(n, chars):
@@ -26,7 +26,7 @@ def alpha_pre(n, chars):
 
 def plan(tier, seed):
     obs = []
-    maxn = 4 if tier == 'quick' else 5
+    maxn = 3 if tier == 'quick' else 5
     for gn, (rules, kws, name_rules, directive) in GRAMMARS.items():
         for ic in (False, True):
             for n in range(0, maxn + 1):
@@ -42,6 +42,13 @@ def plan(tier, seed):
                 obs.append(Ob(name=f'{gn}_{"ic" if ic else "cs"}_L{n}', factory='vt.pegbody:make_peg', spec=spec, params=[(f'c{i}', 0, UNI) for i in range(n)],
                               budget=BUDGET[n], group='ignorecase' if ic else 'case', extra_pre=pre))
                 # reference-free pair: without @name the grammar accepts a superset and agrees wherever the value is not a keyword
+            # ignorecase given at PARSE time instead of as a directive (the keyword table must be folded for that parse)
+            if ic and gn in ('choice', 'closure', 'named_value'):
+                for n in (2, 3):
+                    spec = {'grammar': gn, 'rules': rules, 'n': n, 'directives': directive, 'decorators': {r: ['name'] for r in name_rules}, 'settings': {'ignorecase': True},
+                            'ref': {'keywords': kws, 'name_rules': name_rules, 'ignorecase': True}, 'gen': True, 'warm': WARM}
+                    obs.append(Ob(name=f'{gn}_ic-at-parse-time_L{n}', factory='vt.pegbody:make_peg', spec=spec, params=[(f'c{i}', 0, UNI) for i in range(n)],
+                                  budget=BUDGET[n], group='ignorecase-setting'))
             spec2 = {'grammar': gn, 'ic': ic, 'n': 3}
             obs.append(Ob(name=f'{gn}_{"ic" if ic else "cs"}_undecorated_L3', factory='vt.props.c11:make_undecorated', spec=spec2,
                           params=[(f'c{i}', 0, UNI) for i in range(3)], budget=300, group='undecorated'))
@@ -56,7 +63,7 @@ def plan(tier, seed):
                        '@name accepts every text the decorated grammar accepts with the same AST, and the decorated grammar never returns a keyword from a @name rule.',
         'functions_encoded': ['tatsu.contexts.engine:ParserEngine.semantics_call/validate_is_not_keyword', 'tatsu.peg.base:Grammar.__init__ (keyword normalisation)', 'tatsu.config:ParserConfig',
                               'tatsu.ngcodegen.ngparser_gen:gen_keywords (generated KEYWORDS table, executed)', 'tatsu.contexts.decorator:name'],
-        'bounds': f'{len(GRAMMARS)} grammars x ignorecase on/off, model and generated parser; text length 0..3 over all Unicode, 4..{maxn} over the alphabet "ifaxyb IF!" (stated)',
+        'bounds': f'{len(GRAMMARS)} grammars x ignorecase on/off, model and generated parser; text length 0..3 over all Unicode, (thorough) 4..{maxn} over the alphabet "ifaxyb IF!" (stated)',
         'outside': 'longer texts; keywords added through the API instead of directives; @name with semantic actions',
         'assumptions': ['vt/refpeg.py keyword rule: str(value) (upper-cased under ignorecase) in the keyword set'],
     }
